@@ -12,12 +12,14 @@ exist only here):
   ("case", scrut|None, whens, els|None) ("cast", e, (tname, args)) ("tuple", es)
   ("star",) ("qstar", table) ("exists", q) ("notexists", q) ("subq", q) ("insub", e, neg, q)
   ("anyall", all, e, op, q) ("funcx", name, distinct, args, extras) ("interval", s) ("array", es)
-  ("subscript", e, idx) ("slice", e, lo, hi)
+  ("subscript", e, idx) ("slice", e, lo, hi) ("neg", sign, e)   sign in "-" "+"  (unary minus / plus)
 """
 import random
 
 CMP_OPS = ["=", "<>", "!=", "<", ">", "<=", ">="]
-BIN_CTX = {"OR": (0, 1), "AND": (1, 2), "||": (4, 5), "+": (5, 6), "-": (5, 6), "*": (6, 7), "/": (6, 7), "%": (6, 7)}
+# right operand of * / %: context 6.5 = "signed operand" (unary minus / plus, level 6.5, is admitted; for the integer
+# levels of Spec/RefGrammar.v  level < 6.5  <=>  level < 7, so renderings of core expressions are unchanged)
+BIN_CTX = {"OR": (0, 1), "AND": (1, 2), "||": (4, 5), "+": (5, 6), "-": (5, 6), "*": (6, 6.5), "/": (6, 6.5), "%": (6, 6.5)}
 for _c in CMP_OPS:
     BIN_CTX[_c] = (4, 4)
 BIN_LEVEL = {"OR": 0, "AND": 1, "||": 4, "+": 5, "-": 5, "*": 6, "/": 6, "%": 6}
@@ -39,6 +41,7 @@ def level_of(e):
     if k == "not": return 2
     if k in ("isnull", "in", "between", "like", "insub", "anyall"): return 3
     if k == "castop": return 7
+    if k == "neg": return 6.5
     return 8
 
 
@@ -69,6 +72,7 @@ def children(e):
     if k == "funcx": return [(i, 0, x) for i, x in enumerate(e[3])]
     if k == "array": return [(i, 0, x) for i, x in enumerate(e[1])]
     if k == "subscript": return [(0, 8, e[1])] + [(1 + i, 0, x) for i, x in enumerate(e[2])]
+    if k == "neg": return [(0, 6.5, e[2])]
     return []
 
 
@@ -174,6 +178,7 @@ class Renderer:
         # ---- statement-level extensions (text only matters: ty "?" = not used by the Coq cross-checks)
         W = lambda s: T("?", s)
         Q = lambda q: [W(t) for t in self.sr(q)]
+        if k == "neg": return [T("TyMinus" if e[1] == "-" else "TyPlus", e[1])] + R(6.5, e[2], 0)
         if k == "star": return [T("TyAsterisk", "*")]
         if k == "qstar": return [T("TyIdent", e[1]), T("TyPeriod", "."), T("TyAsterisk", "*")]
         if k == "exists": return [W("EXISTS"), LP] + Q(e[1]) + [RP]
@@ -287,6 +292,7 @@ class Prescriber:
                         ElseClause=None if e[3] is None else A(e[3]))
         if k == "tuple": return node("TupleExpression", Expressions=[A(x) for x in e[1]])
         S = self.stmt_ast
+        if k == "neg": return node("UnaryExpression", Operator=1 if e[1] == "-" else 0, Expr=A(e[2]))
         if k == "star": return node("Identifier", Name="*")
         if k == "qstar": return node("Identifier", Name="*", Table=e[1])
         if k == "exists": return node("ExistsExpression", Subquery=S(e[1]))
@@ -498,6 +504,47 @@ def pair_cases():
     return out
 
 
+def neg_cases():
+    """unary minus / plus against every operator: sign over the operator (needs parentheses unless the operator binds
+    tighter), and the signed operand in every slot of every operator"""
+    out = []
+    names = [("ident", False, "a"), ("ident", False, "b"), ("ident", False, "c"), ("num", "1"), ("ident", False, "d")]
+    for sign in ("-", "+"):
+        for O in OPERATORS:
+            inner = build(O, names[:slots(O)])
+            out.append(("neg:%s/over/%s" % (sign, O), ("neg", sign, inner), {}))
+            out.append(("neg:%s/over/%s/redundant" % (sign, O), ("neg", sign, inner), {(): 1, (0,): 1}))
+            for s in range(slots(O)):
+                args = [names[3], names[4], ("str", "z")][:slots(O)]
+                args[s] = ("neg", sign, names[0])
+                out.append(("neg:%s/in/%s/%d" % (sign, O, s), build(O, args), {}))
+        out.append(("neg:%s/chain" % sign, ("neg", sign, ("neg", "-", ("neg", "+", names[0]))), {}))
+    return out
+
+
+def with_signs(r, e, p=0.2):
+    """copy of a core expression with unary signs inserted at random nodes"""
+    k = e[0]
+    if k in ("ident", "qident", "num", "str", "ph", "null", "bool"):
+        out = e
+    elif k == "bin": out = ("bin", e[1], with_signs(r, e[2], p), with_signs(r, e[3], p))
+    elif k == "not": out = ("not", with_signs(r, e[1], p))
+    elif k == "isnull": out = ("isnull", with_signs(r, e[1], p), e[2])
+    elif k == "in": out = ("in", with_signs(r, e[1], p), e[2], [with_signs(r, x, p) for x in e[3]])
+    elif k == "between": out = ("between", with_signs(r, e[1], p), e[2], with_signs(r, e[3], p), with_signs(r, e[4], p))
+    elif k == "like": out = ("like", with_signs(r, e[1], p), e[2], e[3], with_signs(r, e[4], p))
+    elif k in ("castop", "cast"): out = (k, with_signs(r, e[1], p), e[2])
+    elif k == "func": out = ("func", e[1], e[2], [with_signs(r, x, p) for x in e[3]])
+    elif k == "case":
+        out = ("case", None if e[1] is None else with_signs(r, e[1], p), [(with_signs(r, c, p), with_signs(r, v, p)) for c, v in e[2]],
+               None if e[3] is None else with_signs(r, e[3], p))
+    elif k == "tuple": out = ("tuple", [with_signs(r, x, p) for x in e[1]])
+    else: out = e
+    if r.random() < p:
+        out = ("neg", r.choice(["-", "-", "+"]), out)
+    return out
+
+
 def rand_expr(r, budget, boolean=None):
     """random core expression with about `budget` nodes"""
     if budget <= 1:
@@ -584,6 +631,7 @@ def pdepth(lv, e, rho, path=()):
         b = 1 + max(ds + [0])
     elif k == "cast": b = 1 + P(0, e[1], 0)
     elif k == "tuple": b = 1 + max(P(0, x, i) for i, x in enumerate(e[1]))
+    elif k == "neg": b = 1 + P(6.5, e[2], 0)
     else: raise ValueError(k)
     return par + b
 
@@ -641,6 +689,13 @@ class StmtGen:
             return ("array", [rand_expr(r, 2) for _ in range(r.randrange(0, 3))])
         if k < 0.25:
             return ("subscript", ("ident", False, r.choice(IDENTS)), [("num", "1")] + ([("ident", False, "i")] if r.random() < 0.3 else []))
+        if k < 0.31:
+            # unary minus / plus: a signed atom, a signed operand inside arithmetic, a sign over a whole expression
+            sg = r.choice(["-", "-", "+"])
+            form = r.randrange(3)
+            if form == 0: return ("neg", sg, r.choice([("num", r.choice(NUMS)), ("ident", False, r.choice(IDENTS))]))
+            if form == 1: return ("bin", r.choice(["+", "-", "*", "/", "=", "<"]), rand_expr(r, 2), ("neg", sg, rand_expr(r, 2)))
+            return ("neg", sg, rand_expr(r, max(1, budget - 1)))
         e = rand_expr(r, budget)
         return e
 
@@ -693,7 +748,9 @@ class StmtGen:
     def tableref(self, depth, allow_sub=True):
         r = self.r
         if allow_sub and depth < 2 and r.random() < 0.2:
-            return dict(name="", sub=self.select(depth + 1, simple=True), alias=self.alias(), as_kw=r.random() < 0.6, lateral=False)
+            sub = self.select(depth + 1, simple=True)
+            if r.random() < 0.2: sub["with_"] = self.with_clause(depth + 1)     # derived table starting with WITH
+            return dict(name="", sub=sub, alias=self.alias(), as_kw=r.random() < 0.6, lateral=False)
         al = self.alias() if r.random() < 0.4 else ""
         return dict(name=self.tname(), sub=None, alias=al, as_kw=bool(al) and r.random() < 0.5, lateral=False)
 
@@ -725,7 +782,7 @@ class StmtGen:
         nfrom = 1 if r.random() < 0.8 else 2
         for _ in range(nfrom):
             s["from_"].append(self.tableref(depth, allow_sub=not simple))
-        if nfrom == 1 and not simple and r.random() < 0.45:
+        if not simple and r.random() < 0.45:
             for _ in range(r.randrange(1, 4)):
                 jt = r.choice(["JOIN", "INNER JOIN", "LEFT JOIN", "LEFT OUTER JOIN", "RIGHT JOIN", "RIGHT OUTER JOIN", "FULL JOIN", "FULL OUTER JOIN",
                                "CROSS JOIN", "NATURAL JOIN", "NATURAL LEFT JOIN"])
@@ -803,14 +860,6 @@ class StmtGen:
         else:
             s["query"] = self.query(1)
             s["query"].pop("with_", None)
-            if s["returning"]:
-                # listed known finding `returning-taken-as-alias`: RETURNING directly after a FROM item without alias
-                # (or after a select item) is swallowed as an implicit alias; keep the query's tail out of that shape
-                q = s["query"]
-                while q["kind"] == "setop": q = q["right"]
-                tail = q["where"] is not None or q["group_by"] or q["order_by"] or q["limit"] is not None or q["offset"] is not None or q["fetch"]
-                if not q["from_"]: s["returning"] = []
-                elif not tail: q["where"] = rand_expr(r, 1)
         if r.random() < 0.3:
             c = dict(target=[r.choice(IDENTS) for _ in range(r.randrange(0, 3))], constraint="", nothing=r.random() < 0.5, updates=[], where=None)
             if not c["nothing"]:
@@ -876,7 +925,7 @@ class StmtGen:
             return dict(kind="create_table", name=self.tname(), temp=r.random() < 0.15, ine=r.random() < 0.3, cols=cols, tcons=tcons)
         if k == "index":
             return dict(kind="create_index", name="ix1", table=self.tname(), unique=r.random() < 0.3, ine=r.random() < 0.3,
-                        using=r.choice(["", "", "btree", "gin"]), cols=[(r.choice(IDENTS), r.choice(["", "ASC", "DESC"])) for _ in range(r.randrange(1, 3))],
+                        using=r.choice(["", "", "btree", "gin", "hash"]), cols=[(r.choice(IDENTS), r.choice(["", "ASC", "DESC"])) for _ in range(r.randrange(1, 3))],
                         where=rand_expr(r, 3) if r.random() < 0.3 else None)
         if k == "view":
             q = self.query(1); q.pop("with_", None)
@@ -1148,7 +1197,7 @@ class StmtPrescriber:
                 c = self.E(e)
                 cols.append(node("AliasedExpression", Expr=c, Alias=al) if al else c)
             joins = []
-            first = self.table(s["from_"][0]) if s["from_"] else None
+            first = self.table(s["from_"][-1]) if s["from_"] else None      # JOIN binds tighter than the comma
             for i, (jt, tr, cond) in enumerate(s["joins"]):
                 words = jt.split()[:-1]
                 words = [w for w in words if w != "OUTER"]
@@ -1156,7 +1205,7 @@ class StmtPrescriber:
                 base = [w for w in words if w != "NATURAL"]
                 ty = (base[0] if base else "INNER")
                 if nat: ty = "NATURAL " + ty
-                left = first if i == 0 else node("TableReference", Name="(%s_with_%d_joins)" % (s["from_"][0]["name"], i))
+                left = first if i == 0 else node("TableReference", Name="(%s_with_%d_joins)" % (s["from_"][-1]["name"], i))
                 c = None
                 if cond and cond[0] == "on": c = self.E(cond[1])
                 if cond and cond[0] == "using":
